@@ -181,6 +181,8 @@ func styleOf(sys semver.System) string {
 // internal minimum version print identically but only the former enables
 // prerelease matching; Intersect keeps the receiver's bound when both are
 // equal, so A∩B and B∩A differ on the single version 0.0.0-0.
+var minLiteralRE = regexp.MustCompile(`(^|[^0-9.])v?0(\.0){0,2}-0($|[^0-9A-Za-z.-])`)
+
 var spanMinRE = regexp.MustCompile(`[\[(]([^:,{}]+):|[{,]([^\[(:,{}]+)[,}]`)
 
 func spanMins(sys semver.System, text string) []string {
@@ -313,7 +315,14 @@ func knownClass(sys semver.System, r result, A, B string) string {
 			zero = "v0.0.0"
 		}
 		_ = min
-		if err == nil && v.IsPrerelease() && rel == zero && (strings.Contains(A, "0.0.0-0") || strings.Contains(B, "0.0.0-0")) {
+		// (the bound and the candidate may be written in short form: 0-0, 0.0-0)
+		relZero := false
+		if rv, rerr := sys.Parse(rel); rerr == nil {
+			if zv, zerr := sys.Parse(zero); zerr == nil {
+				relZero = rv.Compare(zv) == 0
+			}
+		}
+		if err == nil && v.IsPrerelease() && relZero && (minLiteralRE.MatchString(A) || minLiteralRE.MatchString(B)) {
 			return "MinVersionLiteralPrereleaseFlag"
 		}
 	}
